@@ -19,7 +19,10 @@ import (
 
 func init() { fw.Register("C13", "exploration", Run) }
 
+const kfForeign = "C13-relevant-kind-of-a-foreign-api-group-is-analysed"
+
 type junk struct {
+	native   string // for a document of a foreign API group whose kind the tool reads: the apiVersion the tool takes it for
 	name     string
 	ext      string // file extension when placed as its own file
 	content  string
@@ -45,6 +48,8 @@ var junks = []junk{
 	{name: "statefulset-failing-schema", ext: ".yaml", document: true, severe: true, marker: "zzbadss", content: "apiVersion: apps/v1\nkind: StatefulSet\nmetadata: {name: zzbadss, namespace: ns1}\nspec:\n  replicas: [1]\n  template: {metadata: {labels: {app: zz}}, spec: {containers: [{name: c, image: x}]}}\n"},
 	// a kind the tool reads, in a foreign API group, named like the real Service of the Service/Ingress world (Knative creates exactly this pair)
 	{name: "foreign-group-service-named-like-the-real-one", ext: ".yaml", document: true, content: "apiVersion: serving.knative.dev/v1\nkind: Service\nmetadata: {name: s, namespace: ns1}\nspec:\n  template: {spec: {containers: [{image: x}]}}\n"},
+	// a Calico NetworkPolicy: another API group, another schema, a kind name the tool reads
+	{name: "calico-networkpolicy", ext: ".yaml", document: true, native: "networking.k8s.io/v1", content: "apiVersion: projectcalico.org/v3\nkind: NetworkPolicy\nmetadata: {name: calico-allow, namespace: ns1}\nspec:\n  selector: app == 'zz'\n  types: [Ingress]\n  ingress:\n  - action: Allow\n    protocol: TCP\n"},
 	// irrelevant kinds that carry no metadata.name at all
 	{name: "kustomization-without-name", ext: ".yaml", document: true, content: "apiVersion: kustomize.config.k8s.io/v1beta1\nkind: Kustomization\nresources: [10-a.yaml, 20-b.yaml]\ncommonLabels: {app: zz}\n"},
 	{name: "kind-cluster-config-without-name", ext: ".yaml", document: true, content: "kind: Cluster\napiVersion: kind.x-k8s.io/v1alpha4\nnodes: [{role: control-plane}, {role: worker}]\n"},
@@ -78,12 +83,13 @@ func worlds() []*wm.World {
 }
 
 type Case struct {
-	WI      int
-	Junk    []int
-	Place   []int
-	Stop    bool
-	Command string // list | diff-dir1 | diff-dir2
-	Desc    string
+	nativeSpelling bool // write foreign-group documents with the native apiVersion of their kind (defect model of kfForeign)
+	WI             int
+	Junk           []int
+	Place          []int
+	Stop           bool
+	Command        string // list | diff-dir1 | diff-dir2
+	Desc           string
 }
 
 var dirSeq atomic.Int64
@@ -100,6 +106,10 @@ func writeDir(dir string, w *wm.World, cs Case) error {
 	extra := map[string]string{}
 	for k, ji := range cs.Junk {
 		j := junks[ji]
+		if cs.nativeSpelling && j.native != "" {
+			lines := strings.SplitN(j.content, "\n", 2)
+			j.content = "apiVersion: " + j.native + "\n" + lines[1]
+		}
 		switch placements[cs.Place[k]] {
 		case "own-file-first":
 			extra[fmt.Sprintf("00-junk%d%s", k, j.ext)] = j.content
@@ -216,7 +226,7 @@ func runDiff(d1, d2 string, stop bool) outcome {
 	d, err := da.ConnDiffFromDirPaths(d1, d2)
 	o := outcome{err: err, nilRes: d == nil}
 	collect(da.Errors(), &o)
-	if d != nil {
+	if d != nil && err == nil { // on an error d may be an interface holding a nil pointer
 		var ks []string
 		add := func(t string, l []diff.SrcDstDiff) {
 			for _, e := range l {
@@ -315,7 +325,32 @@ func eval(cs Case, x *fw.Rec) {
 		if got.err != nil {
 			x.Fail(cls("injected documents make the analysis fail"), "", detail())
 		} else if got.relation != want.relation {
-			x.Fail(cls("injected documents change the computed connections"), "", detail())
+			// defect model of the recorded finding: documents are recognised by kind alone, i.e. the result is exactly the one
+			// obtained when the foreign document is spelled with the native apiVersion of that kind
+			known := ""
+			if hasForeign(cs) {
+				ndir := dir + "-native"
+				ncs := cs
+				ncs.nativeSpelling = true
+				if err := writeDir(ndir, ws[cs.WI], ncs); err == nil {
+					var nat outcome
+					switch cs.Command {
+					case "list":
+						nat = runList(ndir, cs.Stop, false)
+					case "list-exposure":
+						nat = runList(ndir, cs.Stop, true)
+					case "diff-dir1":
+						nat = runDiff(ndir, otherDir, cs.Stop)
+					default:
+						nat = runDiff(otherDir, ndir, cs.Stop)
+					}
+					if nat.err == nil && nat.relation == got.relation {
+						known = kfForeign
+					}
+				}
+				os.RemoveAll(ndir)
+			}
+			x.Fail(cls("injected documents change the computed connections"), known, detail())
 		}
 	}
 	oc := fmt.Sprintf("%s|err=%v|severe=%v|fatal=%v|entries=%d", cs.Command, got.err != nil, hasSevere, hasFatal, got.entries)
@@ -324,6 +359,15 @@ func eval(cs Case, x *fw.Rec) {
 		x.Nontrivial(cs.Desc)
 		x.Sample(map[string]any{"case": cs.Desc, "outcome": oc})
 	}
+}
+
+func hasForeign(cs Case) bool {
+	for _, ji := range cs.Junk {
+		if junks[ji].native != "" {
+			return true
+		}
+	}
+	return false
 }
 
 func firstLine(s string) string {
@@ -376,8 +420,8 @@ func Run(r *fw.Run) {
 		prev := -1
 		for k := 0; k < n; k++ {
 			ji := c.Choose(len(junks), "junk")
-			if ji < prev {
-				c.Skip() // unordered subsets
+			if ji < prev || (ji == prev && junks[ji].native != "") {
+				c.Skip() // unordered subsets; the same foreign-group document twice would be two policies of one name
 			}
 			prev = ji
 			pl := c.Choose(len(placements), "placement")
